@@ -40,7 +40,7 @@ import (
 	_ "google.golang.org/protobuf/types/known/timestamppb"
 )
 
-var scenarios = []string{"desc", "types", "legacy", "registry", "cycle"}
+var scenarios = []string{"desc", "types", "legacy", "registry", "cycle", "extinfo"}
 
 // ---------------------------------------------------------------------------- observations
 
@@ -543,6 +543,10 @@ func childC19(res *childResult, sc string, n int, seed int64, trace bool) {
 		childCycle(res, max(n, 1), seed)
 		return
 	}
+	if sc == "extinfo" {
+		childExtInfo(res, max(n, 1), seed)
+		return
+	}
 	runtime.GOMAXPROCS(runtime.NumCPU())
 	if n < 1 {
 		n = 1
@@ -696,6 +700,9 @@ func runC19(c *C) {
 		if race {
 			if rep := raceReport(stderr); rep != "" {
 				in["report"] = rep
+				if at := roundBefore(stderr); at != "" {
+					in["round"] = at // the child announces every round on stderr; this is the last one before the report
+				}
 				c.Fail(vh.Failure{Kind: "property", What: "C19 DATA RACE reported by the race detector during concurrent first use (" + sc + ")", Input: in})
 				return
 			}
@@ -779,7 +786,7 @@ func runC19(c *C) {
 	if c.HasModel() {
 		facts := c.Ask("facts")
 		c.R.Notes = append(c.R.Notes, "protocol variants selected from the extracted shape facts: "+facts)
-		want := "msginfo=flag/bodyThenStore/locks=true/storeOnHit=false file=started/bodyThenStore/locks=true/storeOnHit=true once=flag/bodyThenStore/locks=true/storeOnHit=false reg=locks:true aberrant=never"
+		want := "msginfo=flag/bodyThenStore/locks=true/storeOnHit=false file=started/bodyThenStore/locks=true/storeOnHit=true once=flag/bodyThenStore/locks=true/storeOnHit=false reg=locks:true aberrant=never extinfo=flag/bodyThenStore/locks=true/storeOnHit=false"
 		got := facts
 		if i := strings.Index(facts, "msginfo="); i >= 0 {
 			got = facts[i:]
@@ -853,4 +860,21 @@ func atoiDefault(s string, d int) int {
 		return d
 	}
 	return n
+}
+
+// roundBefore returns the last "#conc-round …" announcement that precedes the first race report.
+func roundBefore(stderr string) string {
+	i := strings.Index(stderr, "WARNING: DATA RACE")
+	if i < 0 {
+		return ""
+	}
+	j := strings.LastIndex(stderr[:i], "#conc-round ")
+	if j < 0 {
+		return ""
+	}
+	line := stderr[j+len("#conc-round "):]
+	if k := strings.IndexByte(line, '\n'); k >= 0 {
+		line = line[:k]
+	}
+	return line
 }
